@@ -209,8 +209,8 @@ def Expr.inlineCleanB : Expr → Bool
   | .un _ e _ _ _ _ => e.inlineCleanB
   -- at most one blank line in front of / after a binary operator (`cex_blank_lines_around_operator`)
   | .bin _ l r ogl rgl _ _ => decide (ogl ≤ 2) && decide (rgl ≤ 2) && l.inlineCleanB && r.inlineCleanB
-  | .ite .. => false     -- `if`: outside the spacing theorem so far (`File.basic`)
-  | .has .. => false     -- `?`: outside the spacing theorem so far (`File.basic`)
+  | .ite c t e _ _ _ _ _ _ _ _ _ _ _ _ _ => c.inlineCleanB && t.inlineCleanB && e.inlineCleanB
+  | .has e _ _ _ _ _ _ _ => e.inlineCleanB
 def allInlineCleanB : List Expr → Bool
   | [] => true
   | e :: rest => e.inlineCleanB && allInlineCleanB rest
@@ -243,8 +243,8 @@ def Expr.beforeFlatB : Expr → Bool
   | .un _ e _ _ _ _ => e.beforeFlatB
   -- at most one blank line in front of / after a binary operator (`cex_blank_lines_around_operator`)
   | .bin _ l r ogl rgl _ _ => decide (ogl ≤ 2) && decide (rgl ≤ 2) && l.beforeFlatB && r.beforeFlatB
-  | .ite .. => false     -- `if`: outside the spacing theorem so far (`File.basic`)
-  | .has .. => false     -- `?`: outside the spacing theorem so far (`File.basic`)
+  | .ite c t e _ _ _ _ _ _ _ _ _ _ _ _ _ => c.beforeFlatB && t.beforeFlatB && e.beforeFlatB
+  | .has e _ _ _ _ _ _ _ => e.beforeFlatB
 def allBeforeFlatB : List Expr → Bool
   | [] => true
   | e :: rest => e.beforeFlatB && allBeforeFlatB rest
@@ -270,8 +270,8 @@ def Expr.beforeFlatG : Expr → Bool
   | .lam _ _ _ _ body _ _ => body.beforeFlatG
   | .un _ e _ _ _ _ => e.beforeFlatG
   | .bin _ l r _ _ _ _ => l.beforeFlatG && r.beforeFlatG
-  | .ite .. => false
-  | .has .. => false
+  | .ite c t e _ _ _ _ _ _ _ _ _ _ _ _ _ => c.beforeFlatG && t.beforeFlatG && e.beforeFlatG
+  | .has e _ _ _ _ _ _ _ => e.beforeFlatG
 def allBeforeFlatG : List Expr → Bool
   | [] => true
   | e :: rest => e.beforeFlatG && allBeforeFlatG rest
@@ -297,8 +297,8 @@ def Expr.beforeFlatP : Expr → Bool
   | .un _ e _ _ _ _ => e.beforeFlatP
   -- at most one blank line in front of / after a binary operator (`cex_blank_lines_around_operator`)
   | .bin _ l r ogl rgl _ _ => decide (ogl ≤ 2) && decide (rgl ≤ 2) && l.beforeFlatP && r.beforeFlatP
-  | .ite .. => false     -- `if`: outside the spacing theorem so far (`File.basic`)
-  | .has .. => false     -- `?`: outside the spacing theorem so far (`File.basic`)
+  | .ite c t e _ _ _ _ _ _ _ _ _ _ _ _ _ => c.beforeFlatP && t.beforeFlatP && e.beforeFlatP
+  | .has e _ _ _ _ _ _ _ => e.beforeFlatP
 def allBeforeFlatP : List Expr → Bool
   | [] => true
   | e :: rest => e.beforeFlatP && allBeforeFlatP rest
@@ -355,8 +355,8 @@ def Cst.basic : Cst → Bool
   | .lam _ _ _ _ g2 b => decide (g2.count '\n' ≤ 2) && b.basic
   | .un _ _ _ e => e.basic
   | .bin l _ _ _ _ _ r => l.basic && r.basic
-  | .ite .. => false     -- `if`: not covered by the spacing theorem yet
-  | .has .. => false     -- `?`: not covered by the spacing theorem yet
+  | .ite _ _ c _ _ _ _ t _ _ _ _ e => c.basic && t.basic && e.basic
+  | .has e _ _ _ _ _ => e.basic
 def Items.basic : Items → Bool
   | .nil => true
   | .cmt _ _ rest => rest.basic
